@@ -340,6 +340,8 @@ class SeriesOps:
         I = self.I
         if any(isinstance(p_, GenCall) for p_ in pos):
             pos = [I.materialise(p_) if isinstance(p_, GenCall) else p_ for p_ in pos]          # a container method consumes the generator it is given
+        if name == "__getitem__" and len(pos) == 1 and not kw and isinstance(obj, (list, dict, PyTuple)):
+            return self.M.getitem(obj, pos[0], node)          # xs.__getitem__(k) is xs[k]
         if isinstance(obj, list):
             if name == "append":
                 v = pos[0]
